@@ -95,7 +95,19 @@ func (e *Engine) prepareContract(ct *Contract) (*ssa.Function, error) {
 	all := append(append([]string{}, extra...), resExtra...)
 	for i := range ct.Ensures {
 		if err := chk(&ct.Ensures[i], all, "ensures"); err != nil {
-			return nil, err
+			// an ensures clause may mention locals declared at the top level of the body (their value at the return):
+			// type-check again at the end of the body
+			syn, ok := fn.Syntax().(*ast.FuncDecl)
+			if !ok || syn.Body == nil || !strings.Contains(err.Error(), "undefined") {
+				return nil, err
+			}
+			save := pos
+			pos = syn.Body.Rbrace - 1
+			err2 := chk(&ct.Ensures[i], all, "ensures")
+			pos = save
+			if err2 != nil {
+				return nil, err
+			}
 		}
 	}
 	for i := range ct.Assigns {
@@ -313,6 +325,25 @@ func (e *Engine) verify(ct *Contract) (res *FuncResult) {
 
 	onReturn := func(rs *State, results []Value) {
 		env := fx.specEnv(rs, results)
+		// locals of the outermost frame (not the parameters: those keep their entry values in ensures clauses)
+		if len(rs.stack) == 1 {
+			for name, v := range rs.top().locals {
+				if _, isParam := fx.params[name]; isParam {
+					continue
+				}
+				if _, isGhost := fx.ghost[name]; isGhost {
+					continue
+				}
+				if lp, ok := v.(localAddr); ok {
+					if env.addrs == nil {
+						env.addrs = map[string]PtrVal{}
+					}
+					env.addrs[name] = lp.P
+				} else if _, bound := env.vars[name]; !bound {
+					env.vars[name] = v
+				}
+			}
+		}
 		for i := range ct.Ensures {
 			c := &ct.Ensures[i]
 			g := env.evalBool(c.Expr)
